@@ -11,6 +11,22 @@ CHECKS = {
  "C02": ("exploration", "property-based differential testing against an independent Avro binary codec written from the spec",
          "Both directions: library bytes read by the reference decoder; reference bytes in every legal layout (block partitions, negative counts, map orders) read by the library.",
          "Trusts refbin (golden self-tests from the specification text run at start-up).", "DESIGN.md §4 C02"),
+
+ "C03": ("exploration", "model-based property testing: generated writer operation histories against an in-memory list model, file read back after every step",
+         "Histories of appends (value/ref/unvalidated/serde), bulk extends, flushes, three kinds of failing appends, metadata calls, reset, finish by into_inner/drop, reopen with append_to; codecs x block sizes.",
+         "Sink is a perfect in-memory buffer; failing appends are classified by the library's own validate() plus a dry run of the unvalidated encoder.", "DESIGN.md §4 C03"),
+ "C04": ("exploration", "property-based differential testing against an independent container-file reader/writer and reference codecs (own inflate/snappy/CRC-32, Python zlib/bz2/lzma)",
+         "Forward (library writes, reference reads) and reverse (reference writes in generated layouts, library reads) over schemas, value sequences, codecs, block partitions and metadata layouts.",
+         "Trusts refocf/refbin/refcodec (golden self-tests at start-up) and Python's standard codecs; zstandard has no independent codec here.", "DESIGN.md §4 C04"),
+ "C06": ("exploration", "property-based testing plus bounded-exhaustive enumeration: every strict prefix, byte mutations, random strings and all <=2-byte strings; conformance/fixpoint/prefix-freeness/decoder-agreement oracles",
+         "Every input on which decoding returns Ok is checked for strict conformance, validate(), re-encode fixpoint; strict prefixes of valid data must err; the two decoders must agree.",
+         "Allocation limit fixed at 1 MiB in the check's process; inputs stopped by that limit are excluded from the agreement oracle.", "DESIGN.md §4 C06"),
+ "C13": ("fault_enumeration", "generated write scenarios with exhaustive fault injection: error at every sink call index (write and flush, Other and Interrupted) under short-write plans",
+         "For each generated scenario and short-write plan the number of sink calls is measured and a fault injected at each index; oracle: Err returned or sink holds exactly the in-memory baseline; documented byte counts match.",
+         "Sinks accept >=1 byte per call; faults firing during Drop cannot be reported by design and are excluded from the exactness oracle.", "DESIGN.md §4 C13"),
+ "C14": ("fault_enumeration", "exhaustive fault enumeration per generated file: every cut offset, every marker/magic byte alteration; expected outcome from an independent layout reader",
+         "For each generated multi-block file every byte offset is a cut point and every marker/magic byte is altered with three masks; the expected prefix and Ok/Err shape are computed from the block layout.",
+         "Block boundaries come from the harness's independent container reader on the pristine file.", "DESIGN.md §4 C14"),
 }
 NOT_YET = {}
 
